@@ -361,6 +361,15 @@ func c08Direct(c *Ctx) {
 				if closeRel(d, o.CompatThreshold, 1e-9) || (best >= 0 && d < o.CompatThreshold && closeRel(d, bd, 1e-9) && d != bd) {
 					ambiguous = true
 				}
+				if best >= 0 && d < o.CompatThreshold && d == bd {
+					// a tie that is exact by the reference formula is a tie for the library only if its own sums agree bit for bit as
+					// well (its summation order may differ by an ulp between the two candidates); only then must the first one win
+					l1 := org.Genotype.VerifCompatibility(ref[best].members[0].Genotype, o)
+					l2 := org.Genotype.VerifCompatibility(s.members[0].Genotype, o)
+					if l1 != l2 {
+						ambiguous = true
+					}
+				}
 				if d < o.CompatThreshold && d < bd {
 					best, bd = k, d
 				}
@@ -383,6 +392,26 @@ func c08Direct(c *Ctx) {
 		}
 		for k, s := range pop.Species {
 			if len(s.Organisms) != len(ref[k].members) {
+				// witness: the first organism the two assign differently, with its distances to all representatives by both measures
+				inLib := map[*genetics.Organism]int{}
+				for kk, ss := range pop.Species {
+					for _, og := range ss.Organisms {
+						inLib[og] = kk
+					}
+				}
+				for kk, rs := range ref {
+					for _, og := range rs.members {
+						if inLib[og] != kk && detail["witness"] == nil {
+							var dists []string
+							for k3, r3 := range ref {
+								dr, _, _, _ := refCompat(geneRecs(og.Genotype), r3.rep, o.ExcessCoeff, o.DisjointCoeff, o.MutdiffCoeff)
+								dl := og.Genotype.VerifCompatibility(pop.Species[k3].Organisms[0].Genotype, o)
+								dists = append(dists, fmt.Sprintf("#%d ref=%v lib=%v genes=%d/%d", k3, dr, dl, len(og.Genotype.Genes), len(r3.rep)))
+							}
+							detail["witness"] = map[string]interface{}{"reference_species": kk, "library_species": inLib[og], "distances": dists}
+						}
+					}
+				}
 				c.Violate("assignment-differs", detail, "species #%d has %d members, the reference speciator gives %d", k, len(s.Organisms), len(ref[k].members))
 				return
 			}
